@@ -133,6 +133,11 @@ void MainSolver::insertFormula(PTRef fla) {
     if (logic.getSortRef(fla) != logic.getSort_bool()) {
         throw ApiException("Top-level assertion sort must be Bool, got " + logic.sortToString(logic.getSortRef(fla)));
     }
+    if (check_called > 0 and not config.isIncremental()) {
+        // Without incremental mode the clauses are preprocessed by variable elimination at the first check; clauses added
+        // later could mention eliminated variables.
+        throw ApiException("Assertion after check-sat, but the solver is not in incremental mode");
+    }
     // The assertion is stored as given, so that its names (:named) and its partition refer to the same term;
     // ITEs are rewritten when the frame is simplified (see simplifyFormulas)
 
